@@ -621,10 +621,9 @@ def submit (s : State σ) (op : SubmitOp) (r : Req) : State σ :=
   | .invalid e bits =>
     match op with
     | .T =>
-      -- `FfiChannel::read_bits` validates before it creates the promise: the callback is never
-      -- invoked; `read_registers` creates it first: dropped, i.e. completed with Shutdown
-      if bits then emit s (.sub r.rid (.badReq (.badRange e)))
-      else emit (complete (accept s r.rid) r .shutdown) (.sub r.rid (.badReq (.badRange e)))
+      -- `FfiChannel::read_bits` / `read_registers` create the promise first and fail it with the
+      -- range error they return
+      emit (complete (accept s r.rid) r (.badReq (.badRange e))) (.sub r.rid (.badReq (.badRange e)))
     | _ => complete (accept s r.rid) r (.badReq (.badRange e))
   | .pass =>
     let s := accept s r.rid
